@@ -44,6 +44,16 @@ Definition validate_kind (k : vkind) (v : pv) : res unit :=
       | PList l => if forallb (fun x => in_strs x cs) l then Ok tt else Err EValue
       | _ => if in_strs v cs then Ok tt else Err EValue
       end
+  | VChoiceStr cs =>                        (* in_choices(cs, False): a list is refused *)
+      match v with
+      | PList _ => Err EValue
+      | _ => if in_strs v cs then Ok tt else Err EValue
+      end
+  | VChoiceList cs =>                       (* in_choices(cs, True): must be a list *)
+      match v with
+      | PList l => if forallb (fun x => in_strs x cs) l then Ok tt else Err EValue
+      | _ => Err EValue
+      end
   | VUnknown _ => Err EOracleMiss          (* validator not understood: fail closed *)
   end.
 
